@@ -13,6 +13,7 @@
      rule                      -> ok limit|exact   which rule selects the division form (regenerated fact float_rule)
      exact <z>                 -> ok <0|1>         the integer is exactly representable as a double (exact64)
      flag <c|cpp> <has|svc> <port|none> <0|1>  -> ok <0|1|?>  boolean flag as rendered by the scanned branches
+     svcport <n|none> / svcflags / distinct <consts|-> <fields|->   service-level exports, macro name clash predicate
      tableok                   -> ok <0|1>      (table_ok && emit_ok)
      sto <c|cpp> <b|u|s|f|v> <w> <s|t>  -> ok <declared storage type|none> sat=<1|0|none>
      port <c|cpp|py> <n|none>  -> ok <n|none|?>   the fixed port id the target exports (emit condition of the template scan) *)
@@ -143,6 +144,18 @@ let handle (line : string) : string =
     | "b2b" -> if not (is_dec toks.(1)) then raise (Bad "invalid_arg"); "ok " ^ show_oz (filter_bits2bytes_ceil (z_of_string toks.(1)))
     | "fit" -> if not (is_dec toks.(1)) then raise (Bad "invalid_arg"); "ok " ^ show_oz (get_best_fit (z_of_string toks.(1)))
     | "tableok" -> if table_ok && emit_ok && names_ok then "ok 1" else "ok 0"
+    | "svcport" ->
+      (* svcport <n|none> -> ok <n|none|?>  what the Python service class exports as _FIXED_PORT_ID_ *)
+      let p = if toks.(1) = "none" then None else (if not (is_dec toks.(1)) then raise (Bad "invalid_arg"); Some (z_of_string toks.(1))) in
+      (match exported_port_k TgtPy KSvcPortId p with Some (Some z) -> "ok " ^ string_of_z z | Some None -> "ok none" | None -> "ok ?")
+    | "svcflags" ->
+      (* svcflags -> ok svc=<0|1|?> issvc= req= rsp=   the C++ service wrapper's _traits_ *)
+      let f nm = (match exported_flag TgtCpp (n_cpp_svc nm) None true with Some true -> "1" | Some false -> "0" | None -> "?") in
+      Printf.sprintf "ok svc=%s issvc=%s req=%s rsp=%s" (f n_cpp_is_service_type) (f n_IsService) (f n_IsRequest) (f n_IsResponse)
+    | "distinct" ->
+      (* distinct <constant names, comma separated|-> <array field names, comma separated|-> -> ok <0|1>   c_macros_distinct *)
+      let sp x = if x = "-" then [] else List.map str_of_string (String.split_on_char ',' x) in
+      if c_macros_distinct (sp toks.(1)) (sp toks.(2)) then "ok 1" else "ok 0"
     | "flag" ->
       (* flag <c|cpp> <has|svc> <port|none> <is service part 0|1> -> ok <0|1|?>  value of _HAS_FIXED_PORT_ID_ / HasFixedPortID / IsServiceType *)
       let tg = (match toks.(1) with "c" -> TgtC | "cpp" -> TgtCpp | _ -> raise (Bad "invalid_arg")) in
